@@ -133,15 +133,30 @@ class C02(Prop):
             else:
                 # a document not written by the library: keys the reader has documented defaults for are absent
                 doc = F.doc_of_spec(spec, F.rr(["1.2", "1.1", "1.2", "2.0"]), keep_defaults=rng.random() < 0.3)
-                for d in doc["payload"]["images"].values():
-                    for c in d.values():
-                        for r in c:
-                            if rng.random() < 0.5:
-                                r.pop("format", None)                      # read as "iso"
-                            if rng.random() < 0.3:
-                                r.pop("unified", None); r.pop("additional_variants", None) if not r.get("unified") else None
-                            if rng.random() < 0.2:
-                                r["mtime"] = str(r["mtime"]); r["bootable"] = int(r["bootable"])     # coerced by the reader
+                recs = [r for d in doc["payload"]["images"].values() for c in d.values() for r in c]
+                saved = [dict() for _ in recs]
+                for r, sv in zip(recs, saved):
+                    if rng.random() < 0.5 and "format" in r:
+                        sv["format"] = r.pop("format")                                    # read as "iso"
+                    if rng.random() < 0.3 and not r.get("unified"):
+                        for k in ("unified", "additional_variants"):
+                            if k in r:
+                                sv[k] = r.pop(k)
+                    if rng.random() < 0.2:
+                        r["mtime"] = str(r["mtime"]); r["bootable"] = int(r["bootable"])     # coerced by the reader
+                # the quantifier is over manifests whose images are distinguishable (identity unique since 1.1): an absent key
+                # is read as its default, so records whose DEFAULTED identity would coincide with another image's (with other
+                # checksums) get their explicit keys back, until the document is as distinguishable as the spec was
+                while True:
+                    groups = {}
+                    for i, r in enumerate(recs):
+                        groups.setdefault(json.dumps(F.identity7(F.read_record(r)), sort_keys=True), []).append(i)
+                    clash = [i for g in groups.values() if len(set(json.dumps(recs[j].get("checksums"), sort_keys=True) for j in g)) > 1
+                             for i in g if saved[i]]
+                    if not clash:
+                        break
+                    for i in clash:
+                        recs[i].update(saved[i]); saved[i] = {}
                 yield {"op": "doc", "args": {"doc": doc}}
 
     # ------------------------------------------------------------------ real side
